@@ -84,8 +84,13 @@ def handle (line : String) : String :=
     match parseB irs, parseCB cs with
     | some b, some c =>
       if !wfB b then "not-wf (a continuing block with an escaping break/continue, or a fall-through case with a body)"
+      else if d != "msl" && !wfBF false b then
+        "not-wf (a switch without default, a fall-through out of the last case, or a continue outside every loop)"
       else
-        let model := if d == "msl" then some (eraseCB (emitB b)) else none
+        let model := if d == "msl" then some (eraseCB (emitB b))
+          else if d == "hlsl" then some (eraseCB (emitBF .hlsl false false b))
+          else if d == "glsl" then some (eraseCB (emitBF .glsl false false b))
+          else none
         match model with
         | none => "skip no statement model for " ++ d
         | some m =>
